@@ -114,7 +114,65 @@ def run(d, pid, tier="quick"):
     return 1
 
 
+def runwt(d, pid, tier="quick"):
+    """Like run, but in a scratch worktree selected with VERIF_REPO (does not touch /repo's working tree)."""
+    d = os.path.abspath(d)
+    wt = tempfile.mkdtemp(prefix="mw-")
+    os.rmdir(wt)
+    try:
+        assert sh("git -C /repo worktree add --detach %s HEAD -q" % wt).returncode == 0
+        a = sh("git -C %s apply %s/patch.diff" % (wt, d))
+        if a.returncode != 0:
+            return {"status": "patch-does-not-apply"}
+        env = dict(os.environ, VERIF_REPO=wt)
+        r = subprocess.run("%s/check %s --tier %s" % (VERIF, pid, tier), shell=True, cwd=VERIF, env=env, stdout=subprocess.PIPE,
+                           stderr=subprocess.STDOUT, timeout=7200)
+        out = r.stdout.decode()
+        lines = out.splitlines()
+        viol = [i for i, l in enumerate(lines) if l.startswith("VIOLATION")]
+        first = lines[viol[0] + 1].strip()[:300] if viol and viol[0] + 1 < len(lines) else ""
+        return {"status": "DETECTED" if r.returncode == 1 and viol else "MISSED" if r.returncode == 0 else "MACHINERY(rc=%d)" % r.returncode,
+                "first": first, "summary": lines[-1][:200] if lines else ""}
+    finally:
+        sh("git -C /repo worktree remove --force %s" % wt)
+        shutil.rmtree(wt, ignore_errors=True)
+
+
+def matrix(extra_pairs=()):
+    """Run every seeded change against the check of its own property (and extra (mutant, property) pairs) in scratch
+    worktrees, two at a time; writes seeded/results.json."""
+    import concurrent.futures as cf
+    import json
+    base = os.path.join(VERIF, "seeded")
+    jobs = []
+    for name in sorted(os.listdir(base)):
+        dd = os.path.join(base, name)
+        if os.path.isdir(dd) and os.path.exists(os.path.join(dd, "patch.diff")):
+            prop = json.load(open(os.path.join(dd, "meta.json")))["property"]
+            jobs.append((name, prop))
+    jobs += list(extra_pairs)
+    res = {}
+    with cf.ThreadPoolExecutor(max_workers=2) as ex:
+        futs = {ex.submit(runwt, os.path.join(base, n), p): (n, p) for n, p in jobs}
+        for f in cf.as_completed(futs):
+            n, p = futs[f]
+            try:
+                res["%s vs %s" % (n, p)] = f.result()
+            except Exception as e:  # noqa
+                res["%s vs %s" % (n, p)] = {"status": "ERROR %s" % e}
+            print(n, p, res["%s vs %s" % (n, p)]["status"], flush=True)
+    with open(os.path.join(base, "results.json"), "w") as f:
+        json.dump(res, f, indent=1, sort_keys=True)
+    return 0
+
+
 if __name__ == "__main__":
+    if sys.argv[1] == "matrix":
+        extra = [tuple(x.split(":")) for x in sys.argv[2:]]
+        sys.exit(matrix(extra))
+    if sys.argv[1] == "runwt":
+        print(runwt(*sys.argv[2:]))
+        sys.exit(0)
     if sys.argv[1] == "import":
         sys.exit(imp(sys.argv[2], sys.argv[3]))
     if sys.argv[1] == "verify":
